@@ -164,6 +164,21 @@ def mk(cls, ms, on_miss, log):
     return cls(max_size=ms)
 
 
+class KeysOnly:
+    """the minimal mapping dict.update() accepts: keys() and __getitem__"""
+    def __init__(self, pairs):
+        self.pairs = list(dict(pairs).items())
+
+    def keys(self):
+        return [a for a, b in self.pairs]
+
+    def __getitem__(self, k):
+        for a, b in self.pairs:
+            if a == k:
+                return b
+        raise KeyError(k)
+
+
 def apply_op(c, M, cls, name, kk, kk2, log, on_miss):
     """returns clause or None; M is updated in place"""
     v, v2 = 200, 201
@@ -316,6 +331,11 @@ def apply_op(c, M, cls, name, kk, kk2, log, on_miss):
         for a, b in list(dict.items(src)):
             M.assign(a, b)
         c.update(c)                              # E is self: no-op
+        # a source that only follows the dict protocol of update(): keys() and __getitem__, no items(), no __iter__
+        ko = KeysOnly([(kk, v2), (kk2, v)])
+        c.update(ko)
+        for a, b in ko.pairs:
+            M.assign(a, b)
         # a plain mapping EQUAL to the whole cache, listed newest first: contents stay, every key is re-assigned in that order
         d = dict(reversed(list(M.items)))
         c.update(d)
